@@ -44,7 +44,7 @@ func vh_C04_L1_client_server() {
 	idx := 0
 	wire := func(x, y *Association) int {
 		n := 0
-		for _, raw := range vWriterPass(x) {
+		for _, raw := range vWriterWake(x) {
 			vassert(vDecode(raw) != nil, "handshake packet decodes")
 			if idx != dropAt {
 				vInbound(y, raw)
@@ -84,11 +84,11 @@ func vh_C04_L1_simultaneous_open() {
 	b.initClient()
 	for round := 0; round < 8; round++ {
 		n := 0
-		for _, raw := range vWriterPass(a) {
+		for _, raw := range vWriterWake(a) {
 			vInbound(b, raw)
 			n++
 		}
-		for _, raw := range vWriterPass(b) {
+		for _, raw := range vWriterWake(b) {
 			vInbound(a, raw)
 			n++
 		}
@@ -152,7 +152,7 @@ func vh_C04_L3_bounded_retries() {
 	a.initClient()
 	inits := 0
 	for i := 0; i < 12; i++ {
-		for _, raw := range vWriterPass(a) {
+		for _, raw := range vWriterWake(a) {
 			p := vDecode(raw)
 			if _, ok := p.chunks[0].(*chunkInit); ok {
 				inits++
